@@ -1,5 +1,5 @@
 CONSTANTS
-  MAXKEYS = 3
+  MAXKEYS = 2
   MAXKEYS_RED = 3
 INIT Init
 NEXT Next
